@@ -7,6 +7,7 @@ the real runonce performs together with the outcome of each socket call, and
 replays that log on the extracted Coq model (coq/Model/Stream.v).  After every
 iteration the complete state of both ends is compared."""
 import errno
+import io as real_io
 import socket as real_socket
 import struct
 import sys
@@ -231,6 +232,8 @@ class Pipe:
         self.fail = None            # errno every read() fails with
         self.eof_reads = 0
         self.fail_reads = 0
+        self.hist = b""             # every byte ever written into this direction of the link
+        self.taken = 0              # how many of them read() has handed out (= taken off the descriptor)
 
     def fileno(self):
         return 5
@@ -242,6 +245,7 @@ class Pipe:
         if not self.w.eager and self.w.rng.random() < 0.2:
             return None
         self.buf += bytes(b)
+        self.hist += bytes(b)
         self.flushed += 1
         self.w.log.append("F:%s" % self.w.cur_side)
         return len(b)
@@ -259,10 +263,68 @@ class Pipe:
         if not self.w.eager and self.w.rng.random() < 0.3:
             k = self.w.rng.randint(1, k)
         d, self.buf = self.buf[:k], self.buf[k:]
+        self.taken += len(d)
         return d
 
     def flush(self):
         pass
+
+
+class _RawAdapter(real_io.RawIOBase):
+    """a harness pipe end behind the raw-file interface of the io module (what io.FileIO(fd) is for a descriptor),
+    so that the real io.BufferedReader / BufferedWriter / TextIOWrapper can be layered on it"""
+
+    def __init__(self, obj, reading):
+        real_io.RawIOBase.__init__(self)
+        self._obj, self._reading = obj, reading
+
+    def readable(self):
+        return self._reading
+
+    def writable(self):
+        return not self._reading
+
+    def fileno(self):
+        return self._obj.fileno()
+
+    def readinto(self, b):
+        d = self._obj.read(len(b))
+        if d is None:
+            return None
+        b[:len(d)] = d
+        return len(d)
+
+    def write(self, b):
+        return self._obj.write(bytes(b))
+
+
+def io_shim(raw_of):
+    """stand-in for the `io` module as one sshuttle module sees it: descriptors 0 and 1 are the harness's own raw
+    objects `raw_of(fd)`; io.FileIO(fd) and io.open(fd, ..., buffering=0) hand that object out as it is, io.open with
+    buffering builds the REAL buffered / text layers of the io module on top of it; everything else is the real module."""
+    class IoShim(object):
+        def __getattr__(self, k):
+            return getattr(real_io, k)
+
+        def FileIO(self, fd, mode="r", closefd=True, opener=None):
+            if isinstance(fd, int) and fd in (0, 1):
+                return raw_of(fd)
+            return real_io.FileIO(fd, mode, closefd, opener)
+
+        def open(self, file, mode="r", buffering=-1, encoding=None, errors=None, newline=None, closefd=True, opener=None):
+            if not (isinstance(file, int) and not isinstance(file, bool) and file in (0, 1)):
+                return real_io.open(file, mode, buffering, encoding, errors, newline, closefd, opener)
+            raw = raw_of(file)
+            if buffering == 0:
+                return raw
+            reading = "r" in mode and "+" not in mode
+            ad = raw if isinstance(raw, real_io.RawIOBase) else _RawAdapter(raw, reading)
+            size = real_io.DEFAULT_BUFFER_SIZE if buffering in (-1, 1) else buffering
+            buf = real_io.BufferedReader(ad, size) if reading else real_io.BufferedWriter(ad, size)
+            if "b" in mode:
+                return buf
+            return real_io.TextIOWrapper(buf, encoding, errors, newline, buffering == 1)
+    return IoShim()
 
 
 class RW:
@@ -388,6 +450,10 @@ class World:
         self.socks = []
         self.crash = None
         self.eager = False      # drain phase: the environment never stalls
+        self.blocked = {"c": False, "s": False}   # drain phase: that end's select() had nothing ready: it sleeps
+        self.cur_meta = None        # the iteration under way: [side, went to sleep in select(), a listener was ready]
+        self.real_meta = []         # ... per snapshot
+        self.slept_queued = []      # an end went to sleep in select() with messages in its outgoing queue
         self.fid = {"c": {}, "s": {}}     # id(proxy) -> fid
         self.prox = {"c": [], "s": []}    # fid -> proxy object
         self.removed = {"c": set(), "s": set()}
@@ -396,7 +462,12 @@ class World:
         self.app_socks = []
         self.dst_socks = []
         self.saved = {}
-        self._install()
+        self.mux_got = {"c": 0, "s": 0}   # bytes of the tunnel stream that reached each multiplexer's input buffer
+        try:
+            self._install()
+        except BaseException:
+            self.restore()              # a failed set-up must not leave the patched boundary behind
+            raise
 
     # ------------------------------------------------------------------ setup
     def _install(self):
@@ -549,10 +620,10 @@ class World:
         # --- server end: run the real server.main until its first runonce
         sr, sw_ = RW(self.cs, self.sc, "r"), RW(self.cs, self.sc, "w")
 
-        class IoShim:
-            @staticmethod
-            def FileIO(fd, mode="r"):
-                return sr if fd == 0 else sw_
+        # descriptors 0 and 1 of the server process are the two harness pipes; every way the `io` module offers to
+        # open them (raw FileIO, io.open with or without buffering) layers over them as the real module does over
+        # a descriptor — a buffered reader really reads ahead, out of select()'s sight
+        IoShim = io_shim(lambda fd: sr if fd == 0 else sw_)
 
         class Out:
             def write(self, s):
@@ -624,40 +695,92 @@ class World:
                 w.asked[side] = True
             w.since_pong[side] += len(data)
             return o_send(channel, cmd, data)
+        o_fill = m.fill
+
+        def fill():
+            before = len(m.inbuf)
+            try:
+                return o_fill()
+            finally:
+                w.mux_got[side] += len(m.inbuf) - before
         m.got_packet = gp
         m.send = send
+        m.fill = fill
 
     def restore(self):
         ssnet, client, server, helpers = self.ssnet, self.client, self.server, self.helpers
-        for k, v in self.saved["ssnet"].items():
+        for k, v in self.saved.get("ssnet", {}).items():
             setattr(ssnet, k, v)
-        ssnet.Proxy.__init__, ssnet.Proxy.callback, ssnet.Proxy.pre_select = self.saved["Proxy"]
-        client.islocal = self.saved["client"][0]
-        helpers.log = ssnet.log = client.log = server.log = self.saved["helpers_log"]
+        if "Proxy" in self.saved:
+            ssnet.Proxy.__init__, ssnet.Proxy.callback, ssnet.Proxy.pre_select = self.saved["Proxy"]
+        if "client" in self.saved:
+            client.islocal = self.saved["client"][0]
+        if "helpers_log" in self.saved:
+            helpers.log = ssnet.log = client.log = server.log = self.saved["helpers_log"]
 
     # ------------------------------------------------------------------ running
     def side_of(self, proxy):
         return "c" if id(proxy) in self.fid["c"] else "s"
 
     def fake_select(self, r, wl, x, timeout):
+        """select() of the end that is running.  What CAN be ready: the tunnel when bytes (or its end) are waiting,
+        a listener with a queued connection, every other descriptor in a wait set (its recv/send/connect answers
+        come from the socket's script).  Outside the drain phase a random subset of that is reported, as a slow
+        environment would; but a select() WITHOUT timeout never returns empty-handed: if something can be ready
+        one such descriptor is reported, and if nothing can, the process sleeps (self.blocked) until something
+        from outside wakes it — the main loops of the code have no timeout."""
         rng = self.rng
         side = self.cur_side
         m = self.mux[side]
         inpipe = self.sc if side == "c" else self.cs
-        rr, ww = [], []
+        rr, ww, cand = [], [], []
         for s in r:
             if s is m.rfile:
-                if inpipe.readable() and (timeout == 0 or self.eager or rng.random() < 0.8):
-                    rr.append(s)
+                if inpipe.readable():
+                    cand.append((0, s))
+                    if timeout == 0 or self.eager or rng.random() < 0.8:
+                        rr.append(s)
             elif s is self.listener or s is self.listener6:
                 if s.queue:
                     rr.append(s)
-            elif self.eager or rng.random() < 0.75:
-                rr.append(s)
+            else:
+                cand.append((0, s))
+                if self.eager or rng.random() < 0.75:
+                    rr.append(s)
         for s in wl:
+            cand.append((1, s))
             if self.eager or rng.random() < 0.75:
                 ww.append(s)
+        if timeout is None and not rr and not ww:
+            if cand:
+                k, s = cand[rng.randrange(len(cand))]
+                (ww if k else rr).append(s)
+            else:
+                self.blocked[side] = True
+        if timeout is None:
+            self.log_select(side, rr, ww)
         return rr, ww, []
+
+    def log_select(self, side, rr, ww):
+        """what the main select() of this iteration reported.  Not a micro-step: with this marker the model checks that
+        the iteration's micro-steps are an instance of Model/StreamLoop.iter_events (drivers/c01_driver.ml, `Y`):
+        Mux.callback once per ready tunnel descriptor, then the listeners, then every proxy 2x if its socket is ready
+        + 1x per ready tunnel descriptor, in list order; nothing at all iff the model says the end sleeps"""
+        m = self.mux[side]
+        socks = {}
+        for f, p in enumerate(self.prox[side]):
+            socks[id((p.wrap1 if side == "c" else p.wrap2).rsock)] = f
+        ready = sorted(set(socks[id(s)] for s in rr + ww if id(s) in socks))
+        lis = any(s is self.listener or s is self.listener6 for s in rr)
+        if self.cur_meta is not None:
+            self.cur_meta[2] = lis
+        self.log.append("Y:%s:%d%d%d:%s" % (side, any(s is m.rfile for s in rr), any(s is m.wfile for s in ww), lis,
+                                            ",".join(map(str, ready)) or "-"))
+
+    def woken(self, side):
+        """something from outside makes a descriptor of this (sleeping) end ready"""
+        inpipe = self.sc if side == "c" else self.cs
+        return inpipe.readable() or (side == "c" and bool(self.pending_accept))
 
     def add_noise_handlers(self):
         """a handler per end, AFTER the Mux in the handler list (like a UdpProxy / DnsProxy of that end), whose
@@ -694,9 +817,15 @@ class World:
         return self.listener.queue + self.listener6.queue
 
     def iterate(self, side):
-        """one iteration of the main loop of `side`: runonce (+ check_fullness)"""
+        """one iteration of the main loop of `side`: runonce (+ check_fullness).  An end that sleeps in select()
+        does nothing until it is woken (returns False)."""
         ssnet = self.ssnet
+        if self.blocked[side]:
+            if not self.woken(side):
+                return False
+            self.blocked[side] = False
         self.cur_side = side
+        self.cur_meta = [side, False, False]
         self.iter_start_since_pong[side] = self.since_pong[side]
         hs = self.handlers[side]
         for h in hs:
@@ -706,6 +835,13 @@ class World:
                 self.removed[side].add(f)
         try:
             ssnet.runonce(hs, self.mux[side])
+            self.cur_meta[1] = bool(self.blocked[side])
+            if self.blocked[side] and self.mux[side].outbuf:
+                # (implementation only) select() has no timeout and nothing this end waits for can become ready by
+                # itself, yet a message is queued: it leaves only when the OTHER end happens to send something
+                fr = [f for b in self.mux[side].outbuf for f in decode_frames(bytes(b))]
+                self.slept_queued.append({"side": side, "iteration": len(self.real_snaps),
+                                          "queued": [CMDN.get(c, "%04x" % c) for _, c, _ in fr]})
             if self.latency:
                 self.log.append("K:%s" % side)
                 self.mux[side].check_fullness()
@@ -744,6 +880,8 @@ class World:
 
     def snapshot(self):
         self.log.append("S")
+        self.real_meta.append(self.cur_meta)
+        self.cur_meta = None
         self.real_snaps.append(self.state_str())
         self.real_waits.append(",".join(self.cur_waits))
         self.cur_waits = []
@@ -793,6 +931,17 @@ class World:
             self.end_str("c"), self.end_str("s"), frames_str(cs), frames_str(sc),
             self.hist_str("c"), self.hist_str("s"))
 
+    def seg_of(self, i):
+        """the log entries of iteration i (between snapshots i-1 and i)"""
+        segs, cur = [], []
+        for e in self.log:
+            if e == "S":
+                segs.append(cur)
+                cur = []
+            elif e is not None:
+                cur.append(e)
+        return " ".join(segs[i]) if i < len(segs) else ""
+
     def model_line(self):
         evs = [e for e in (self.log if self.log_cut is None else self.log[:self.log_cut]) if e is not None]
         return "RUN %d %d %s" % (self.maxc, self.lbs, " ".join(evs))
@@ -835,6 +984,8 @@ def compare(ctx, world, model_out, label):
         mstate, _, mwaits = ms.partition(" || waits ")
         mwaits, _, stale = mwaits.partition(" || stale=")
         stale, _, quiet = stale.partition(" || quiet=")
+        quiet, _, sleep = quiet.partition(" || sleep=")
+        sleep, _, order = sleep.partition(" || iter=")
         world.model_stale = (stale == "1")
         world.model_quiet = quiet          # "10" = quiescentb, not quiescent_eagerb, ...
         mw = ",".join("".join(sorted(set(x))) for x in mwaits.split(",")) if mwaits else ""
@@ -846,6 +997,24 @@ def compare(ctx, world, model_out, label):
             ok = False
             ctx.disagree("stream: wait sets differ at iteration %d" % i, label, world.real_waits[i], mw)
             break
+        # the loop layer (Model/StreamLoop.v): this iteration's micro-steps are an instance of the model's iteration,
+        # and the end went to sleep in select() exactly when the model's sleepsb said so at the iteration's start
+        # (two bits each: runonce as found / with the repair of F160 — either may be the code under check)
+        meta = world.real_meta[i] if i < len(world.real_meta) else None
+        if meta and len(sleep) == 2 and sleep != "--":
+            if meta[1] not in [b == "1" and not meta[2] for b in sleep]:
+                ok = False
+                ctx.disagree("stream: the end %s asleep in select() in iteration %d, the model's sleepsb says otherwise"
+                             % ("fell" if meta[1] else "did not fall", i), label,
+                             {"side": meta[0], "blocked": meta[1], "listener_ready": meta[2]}, sleep)
+                break
+            if "1" not in order:
+                ok = False
+                ctx.disagree("stream: the micro-steps of iteration %d are not an instance of the model's iteration "
+                             "(Model/StreamLoop.iter_events / ans_real_po)" % i, label, world.seg_of(i), order)
+                break
+            if sleep == "10" and meta[1]:
+                world.model_late_sleep = True     # asleep with a late STOP_SENDING in the queue: finding F160, in the model too
     if ok and world.crash and not (parts and parts[-1].startswith("CRASH")):
         ctx.disagree("stream: implementation crashed, model did not", label, world.crash, parts[-1][:300] if parts else "")
         ok = False
@@ -985,6 +1154,11 @@ def gen_case(rng, profile, quick=True):
         if r < 0.06 and c["flows"]:
             # an errno try_connect has never heard of: by design the process gives up (the model says so too)
             c["flows"][-1][1]["connect"] = rng.choice([["x"], ["p", "x"]])
+    if profile in ("fault", "close", "bulk", "latency", "wrap") and rng.random() < 0.5:
+        # the last connection(s) arrive only when everything before them has finished and both ends are asleep
+        # in select(): whatever these flows need (their tear-down too) must happen without any other traffic
+        # waking the loops
+        c["late"] = rng.randint(1, min(2, len(c["flows"])))
     return c
 
 
@@ -998,6 +1172,9 @@ def run_case(ctx, case):
         w.add_noise_handlers()
     try:
         pending = [(dict(a), dict(d)) for a, d in case["flows"]]
+        late = []
+        if case.get("late") and not case.get("burst") and not case.get("tunnel_end"):
+            pending, late = pending[:-case["late"]], pending[-case["late"]:]
         w.snapshot()
         if case.get("burst"):
             while pending:
@@ -1022,30 +1199,41 @@ def run_case(ctx, case):
                 w.new_flow(a, d)
                 w.iterate("c")
             else:
-                w.iterate(rng.choice("cs"))
+                side = rng.choice("cs")
+                if w.iterate(side) is False and w.iterate("s" if side == "c" else "c") is False and not pending:
+                    break               # both ends sleep and nothing is left to wake them
         if te and not w.crash:
             w.end_tunnel(te)
             w.calm = 0
             return w
         # drain: nothing new arrives; alternate until quiescent for a while
-        calm = 0
         w.eager = True
-        for it in range(case.get('drain', 400)):
-            if it == 40:
-                w.eager_quiet = True        # the datagram-style traffic ends; the streams must still finish
-            if w.crash:
-                break
-            while pending:
-                a, d = pending.pop(0)
-                w.new_flow(a, d)
+
+        def drain():
+            calm = 0
+            for it in range(case.get('drain', 400)):
+                if it == 40:
+                    w.eager_quiet = True        # the datagram-style traffic ends; the streams must still finish
+                if w.crash:
+                    break
+                while pending:
+                    a, d = pending.pop(0)
+                    w.new_flow(a, d)
+                    w.iterate("c")
+                before = (w.state_str(), [s.produced for s in w.socks], len(w.cs.buf), len(w.sc.buf))
                 w.iterate("c")
-            before = (w.state_str(), [s.produced for s in w.socks], len(w.cs.buf), len(w.sc.buf))
-            w.iterate("c")
-            w.iterate("s")
-            after = (w.state_str(), [s.produced for s in w.socks], len(w.cs.buf), len(w.sc.buf))
-            calm = calm + 1 if before == after else 0
-            if calm >= 3:
-                break
+                w.iterate("s")
+                after = (w.state_str(), [s.produced for s in w.socks], len(w.cs.buf), len(w.sc.buf))
+                calm = calm + 1 if before == after else 0
+                if w.blocked["c"] and w.blocked["s"] and not w.woken("c") and not w.woken("s"):
+                    calm = max(calm, 3)         # both ends sleep and nothing can wake them: this IS the final state
+                if calm >= 3:
+                    break
+            return calm
+        calm = drain()
+        while late and calm >= 3 and not w.crash:
+            pending.append(late.pop(0))
+            calm = drain()
         w.calm = calm
     finally:
         w.restore()
@@ -1130,6 +1318,15 @@ def check_oracles(w):
                     out["C02"].append(("quiescent, yet a finished flow still has its handler (and its socket): "
                                        "the last flag was set by pre_select, no callback follows",
                                        {"side": side, "flow": f, "ok": bool(p.ok), "finding_id": "F20"}))
+    # F160 (lost wake-up): an end sleeps in select() — no timeout, nothing it waits for can become ready by itself —
+    # while a message sits in its outgoing queue: the message leaves only if the other end happens to send something
+    for sq in getattr(w, "slept_queued", [])[:1]:
+        late = all(c == "STOP" for c in sq["queued"])
+        out["C02"].append(("an end went to sleep in select() (no timeout; none of the descriptors it waits for can become "
+                           "ready by itself) while a message sat in its outgoing queue: the peer is never told, it keeps the "
+                           "flow's handler, socket and identifier until unrelated traffic wakes the sleeper",
+                           dict(sq, still_asleep_at_the_end=bool(w.blocked[sq["side"]] and w.mux[sq["side"]].outbuf),
+                                finding_id="F160" if late else None)))
     # latency control on: an end never queues stream payload far beyond its budget without having asked for an
     # acknowledgement (budget + 2048 bytes per callback, at most 4 callbacks per connection and iteration)
     for ob in getattr(w, "over_budget", [])[:1]:
@@ -1151,10 +1348,14 @@ def check_oracles(w):
             if mc.channel != ms.channel:
                 continue
             if bool(mc.shut_write) != bool(ms.shut_read) or bool(mc.shut_read) != bool(ms.shut_write):
+                # (the consequence of F160 when an end sleeps on its queued STOP_SENDING for good)
+                f160 = any(w.blocked[sd] and w.mux[sd].outbuf and
+                           all(c == 0x4204 for b in w.mux[sd].outbuf for _, c, _ in decode_frames(bytes(b))) for sd in ("c", "s"))
                 out["C02"].append(("quiescent, yet the two tunnel ends of a flow disagree on which directions are closed: one end "
                                    "has finished with the flow, the other keeps its handler, socket and identifier for good",
                                    {"flow": f, "client": [bool(mc.shut_read), bool(mc.shut_write)],
-                                    "server": [bool(ms.shut_read), bool(ms.shut_write)]}))
+                                    "server": [bool(ms.shut_read), bool(ms.shut_write)],
+                                    "finding_id": "F160" if f160 else None}))
                 break
     # a finished wrapper (both directions shut) must have released its identifier
     if getattr(w, "calm", 0) >= 3 and not w.crash:
@@ -1183,6 +1384,34 @@ def check_oracles(w):
             if any(k in (0x4204, 0x4205) for k in kinds):
                 out["C02"].append(("quiescent although an end-of-stream / stop message has been read from the tunnel "
                                    "and was never dispatched", det))
+    # at quiescence every byte that was taken off the tunnel descriptor has reached the multiplexer: the main loop
+    # wakes the multiplexer only when select() reports the DESCRIPTOR readable, so bytes parked in a read-ahead
+    # buffer between the two are looked at only if the peer happens to send something else
+    if getattr(w, "calm", 0) >= 3 and not w.crash and w.model_cut is None:
+        for side in ("c", "s"):
+            pipe = w.sc if side == "c" else w.cs
+            got = w.mux_got[side]
+            if pipe.taken > got:
+                kinds, pos = set(), 0
+                for ch, cmd, d in decode_frames(pipe.hist[:pipe.taken]):
+                    pos += 8 + len(d)
+                    if pos > got:
+                        kinds.add(cmd)
+                if pos < pipe.taken:
+                    kinds.add(None)             # an incomplete frame at the end
+                det = {"side": side, "latency_buffer_size": w.lbs, "bytes_taken_off_the_descriptor": pipe.taken,
+                       "bytes_handed_to_the_multiplexer": got,
+                       "messages_held_back": sorted(CMDN.get(k, "OTHER") if k else "(part of a message)" for k in kinds),
+                       "peer_is_paused_waiting": bool(w.mux["s" if side == "c" else "c"].too_full)}
+                what = ("quiescent, yet bytes of the tunnel stream that the end's reader has taken off its descriptor never "
+                        "reached the multiplexer: they are held in a read-ahead buffer select() cannot see, and nothing "
+                        "more will arrive to flush them out")
+                if kinds & {0x4201, 0x4202} or det["peer_is_paused_waiting"]:
+                    out["C09"].append((what + " (a round-trip request or its answer is among them / the peer waits for one)", det))
+                if kinds & {0x4203, 0x4206, None}:
+                    out["C01"].append((what + " (connection requests or payload among them)", det))
+                if kinds & {0x4204, 0x4205}:
+                    out["C02"].append((what + " (an end-of-stream / stop message among them)", det))
     if w.crash and not any(d.get("connect", [""])[-1] == "x" for _, d in w.case["flows"]):
         out["C08"].append(("an event loop died: %s" % w.crash, {"exception": w.crash}))
         if "AssertionError" in str(w.crash) and not getattr(w, "model_stale", False):
@@ -1256,6 +1485,8 @@ STREAM_TB = [
     "modelled, not verified: kernel TCP sockets (connect/recv/send/shutdown outcomes are the environment's answers; send() after shutdown(SHUT_WR) fails with EPIPE), level-triggered select, CPython reference counting closing a dropped socket",
     "the ssh link is a FIFO of whole frames in the stream model; its byte-level refinement is property C07 (c07_link_fifo)",
     "harness/props/stream_common.py: fake sockets/pipes/listeners (the real client.MultiListener.add_handler and helpers.islocal are used as they are; islocal binds real kernel sockets), the micro-step logger wrapped around the real Proxy/Mux methods, and the normalisation that removes the server's initial empty ROUTES message",
+    "the server's view of the `io` module inside the stream world is io_shim: descriptors 0/1 are the harness pipes, io.open(fd) with buffering builds the REAL io.BufferedReader/BufferedWriter on them (a read-ahead is then out of select()'s sight, as with a real descriptor)",
+    "server_reader_check (C01, C09; implementation only): the real server.main in a child process on a socket pair; 'the server has stopped working on what it was sent' = the Linux kernel reports no unread byte of ours (TIOCOUTQ on the AF_UNIX socket is 0) and /proc/<pid>/wchan shows the child asleep in select/poll, four samples in a row — where the kernel does not tell, a 45 s limit decides",
 ]
 STREAM_ASSUMPTIONS = [
     "connect() reports EINVAL only for a socket whose earlier attempt answered in-progress, and SO_ERROR then holds the outcome (the BSD work-around path of try_connect); Windows is simulated by sys.platform and errno.WSAEWOULDBLOCK as seen by ssnet only",
@@ -1276,8 +1507,52 @@ EXTRA_CASES = {
         {"profile": "close", "seed": 20, "maxc": 65535, "lbs": 32768, "latency": True, "iters": 60,
          "flows": [({"tag": 1, "data": 0, "close": False, "fault": ("recv", 0, 104), "faulty": True},
                     {"tag": 2, "data": 0, "close": False, "connect": ["d"]})]},
+        # F160: the application stops reading (EPIPE) while data is on its way, the client sends STOP_SENDING; the
+        # destination socket fails in the very iteration in which the server dispatches it: the next pre_select queues
+        # the server's STOP_SENDING AFTER Mux.pre_select found the queue empty, and select() has nothing to report
+        {"profile": "fault", "seed": 160, "maxc": 65535, "lbs": 32768, "latency": True, "iters": 0,
+         "flows": [({"tag": 1, "data": 0, "close": False, "p_recv": 1.0, "fault": ("send", 0, errno.EPIPE), "faulty": True},
+                    {"tag": 2, "data": 1, "close": False, "connect": ["d"], "p_recv": 1.0,
+                     "fault": ("recv", 11, errno.ECONNRESET), "faulty": True})]},
     ],
 }
+
+
+def quiet_tunnel_cases():
+    """a connection that arrives while BOTH ends sleep in select() after an earlier, finished one, and whose
+    whole life (destination refuses at once / after a while, resets, closes first, application closes first,
+    nobody says anything) has to be handled without any other traffic waking the loops"""
+    first = ({"tag": 1, "data": 10, "close": True, "p_recv": 1.0}, {"tag": 2, "data": 10, "close": True, "connect": ["d"], "p_recv": 1.0})
+    out = []
+    for n, (app, dst) in enumerate([
+            ({"data": 0, "close": False}, {"data": 0, "close": False, "connect": ["n"], "connect_errno": errno.ECONNREFUSED, "faulty": True}),
+            ({"data": 0, "close": False}, {"data": 0, "close": False, "connect": ["p", "n"], "connect_errno": errno.EHOSTUNREACH, "faulty": True}),
+            ({"data": 5, "close": False}, {"data": 0, "close": False, "connect": ["n"], "connect_errno": errno.ENETUNREACH, "faulty": True}),
+            ({"data": 0, "close": False}, {"data": 0, "close": True, "connect": ["d"]}),
+            ({"data": 0, "close": False}, {"data": 7, "close": True, "connect": ["p", "d"]}),
+            ({"data": 0, "close": True}, {"data": 0, "close": False, "connect": ["d"]}),
+            ({"data": 3, "close": True}, {"data": 3, "close": True, "connect": ["d"]}),
+            ({"data": 0, "close": False}, {"data": 0, "close": False, "connect": ["d"], "fault": ("recv", 0, errno.ECONNRESET), "faulty": True}),
+            ({"data": 0, "close": False, "fault": ("recv", 0, errno.ECONNRESET), "faulty": True}, {"data": 0, "close": False, "connect": ["p", "p", "d"]}),
+    ]):
+        for latency in (True, False):
+            a = dict(app, tag=1, p_recv=1.0)
+            d = dict(dst, tag=2, p_recv=1.0)
+            out.append({"profile": "fault" if a.get("faulty") or d.get("faulty") else "close", "seed": 7000 + 2 * n + latency,
+                        "maxc": 65535, "lbs": 32768, "latency": latency, "iters": 60, "late": 1,
+                        "flows": [(dict(first[0]), dict(first[1])), (a, d)]})
+    return out
+
+
+def code_frames(exc):
+    """the frames of an exception's traceback that lie inside the sshuttle package ("file:line in function")"""
+    import traceback
+    out = []
+    for fr in traceback.extract_tb(exc.__traceback__):
+        fn = fr.filename.replace("\\", "/")
+        if "/sshuttle/" in fn:
+            out.append("sshuttle/%s:%d in %s" % (fn.rsplit("/sshuttle/", 1)[1], fr.lineno, fr.name))
+    return out
 
 
 def stream_check(ctx, prop, profiles, n_quick, n_thorough):
@@ -1301,7 +1576,8 @@ def stream_check(ctx, prop, profiles, n_quick, n_thorough):
                 # under the eager environment, three rounds in a row)
                 # (one direction only: quiescentb does not look at check_fullness, so with a budget of a few
                 # bytes the real loops can keep exchanging PING/PONG through momentarily drained states)
-                if mq[:1] == "0" and calm:
+                stuck = any(w.blocked[sd] and w.mux[sd].outbuf for sd in ("c", "s"))    # F160, reported by the oracle
+                if mq[:1] == "0" and calm and not stuck:
                     ctx.disagree("stream: real loops are calm but the model's quiescentb is 0",
                                  {"seed": w.case["seed"], "profile": w.case["profile"], "case": w.case}, calm, mq)
             for what, detail in orc.get(prop, []):
@@ -1314,12 +1590,33 @@ def stream_check(ctx, prop, profiles, n_quick, n_thorough):
                 if p2 != prop and lst:
                     ctx.count("other_property_alarm_%s" % p2, len(lst))
         del batch[:]
-    extra = list(EXTRA_CASES.get(prop, []))
+    extra = list(EXTRA_CASES.get(prop, [])) + quiet_tunnel_cases()
+    crashed = []
     for i in range(n + len(extra)):
         profile = profiles[i % len(profiles)]
         case = extra.pop(0) if extra else gen_case(rng, profile, ctx.quick())
         profile = case["profile"]
-        w = run_case(ctx, case)
+        try:
+            w = run_case(ctx, case)
+        except (Exception, SystemExit) as e:
+            # the real code raised where the harness has no provision for it (e.g. while server.main sets up its end
+            # of the tunnel).  If the exception was raised inside sshuttle this is behaviour of the code under check on
+            # this case: report it with the case; anything else is a defect of the harness and stays a crash.
+            where = code_frames(e)
+            if not where:
+                raise
+            ctx.count("cases_the_code_could_not_be_run_on")
+            ctx.case((case["seed"], profile), nontrivial=False)
+            crashed.append(where[-1])
+            if len(crashed) <= 3:
+                ctx.violation("a tunnel end could not be brought up / kept running on this case: %s raised at %s — that end "
+                              "never serves a connection nor answers a round-trip request"
+                              % (type(e).__name__, where[-1]),
+                              {"case": case, "detail": {"exception": "%s: %s" % (type(e).__name__, str(e)[:300]),
+                                                        "raised_in": where[-4:]}})
+            if len(crashed) >= 12 and len(crashed) == i + 1:
+                break                   # every case so far failed the same way: no point in going on
+            continue
         nflows = len(w.prox["c"])
         ctx.count("profile_" + profile)
         ctx.count("flows", nflows)
@@ -1366,7 +1663,337 @@ def stream_check(ctx, prop, profiles, n_quick, n_thorough):
     ctx.programs = ctx.evaluations
 
 
+# ---------------------------------------------------------------------- the server's end of the ssh channel
+def _frame(ch, cmd, data=b""):
+    return struct.pack("!ccHHH", b"S", b"S", ch, cmd, len(data)) + data
+
+
+class ServerChild:
+    """the real server.main in a child process whose descriptors 0 and 1 are one end of a socket pair — exactly what
+    ssh.connect / sshd give it.  Nothing of sshuttle is replaced in the child."""
+
+    def __init__(self, lbs, latency=True):
+        import subprocess
+        s1, self.sock = real_socket.socketpair()
+        code = ("import sshuttle.server as s; s.main(%r, %d, False, None, False)" % (bool(latency), lbs))
+        try:
+            self.p = subprocess.Popen([sys.executable, "-c", code], stdin=s1.fileno(), stdout=s1.fileno(),
+                                      stderr=subprocess.DEVNULL, close_fds=True)
+        finally:
+            s1.close()
+        self.buf = b""              # bytes received from the server and not yet consumed
+        self.sock.setblocking(False)
+
+    def pump(self, wait):
+        """take what the server has written so far (waiting at most `wait` seconds for the first byte)"""
+        import select
+        r, _, _ = select.select([self.sock], [], [], wait)
+        while r:
+            try:
+                d = self.sock.recv(1 << 16)
+            except (BlockingIOError, InterruptedError):
+                break
+            except OSError:
+                return False
+            if not d:
+                return False
+            self.buf += d
+            r, _, _ = select.select([self.sock], [], [], 0)
+        return True
+
+    def start(self, limit=60.0):
+        """read the synchronisation string and the two messages server.main sends first; False if they do not come"""
+        import time
+        t_end = time.time() + limit
+        while time.time() < t_end:
+            i = self.buf.find(b"\0\0SSHUTTLE0001")
+            if i >= 0:
+                fr = decode_frames(self.buf[i + 14:])
+                if len(fr) >= 2:
+                    self.buf = self.buf[i + 14 + sum(8 + len(d) for _, _, d in fr):]
+                    return True
+            if not self.pump(0.25) and self.p.poll() is not None:
+                return False
+        return False
+
+    def send(self, data):
+        self.sock.setblocking(True)
+        try:
+            self.sock.sendall(data)
+        finally:
+            self.sock.setblocking(False)
+
+    def unread_by_server(self):
+        """bytes we sent that the server has not yet taken off its descriptor 0 (None if the kernel does not tell)"""
+        import fcntl
+        import termios
+        try:
+            return struct.unpack("i", fcntl.ioctl(self.sock.fileno(), termios.TIOCOUTQ, b"\0\0\0\0"))[0]
+        except Exception:
+            return None
+
+    def waiting_for_input(self):
+        """is the server process asleep inside select/poll?  (None if /proc does not tell)"""
+        try:
+            with open("/proc/%d/wchan" % self.p.pid) as f:
+                wchan = f.read().strip()
+            with open("/proc/%d/stat" % self.p.pid) as f:
+                state = f.read().rsplit(")", 1)[1].split()[0]
+        except Exception:
+            return None
+        if not wchan or wchan == "0":
+            return None if state == "S" else False
+        return state == "S" and ("poll" in wchan or "select" in wchan)
+
+    def settle(self, done, limit=45.0):
+        """wait until `done()` holds, or until the server has provably stopped working on what it was sent: it has taken
+        every byte off descriptor 0 and sleeps in select(), twice in a row, with nothing new from it in between.  Where
+        the kernel does not show that, only the (generous) time limit decides.  Returns 'done' / 'idle' / 'timeout' / 'died'."""
+        import time
+        t_end = time.time() + limit
+        idle = 0
+        while time.time() < t_end:
+            before = len(self.buf)
+            alive = self.pump(0.05)
+            if done():
+                return "done"
+            if not alive or self.p.poll() is not None:
+                self.pump(0)
+                return "done" if done() else "died"
+            if len(self.buf) == before and self.unread_by_server() == 0 and self.waiting_for_input() is True:
+                idle += 1
+                if idle >= 4:
+                    return "idle"
+            else:
+                idle = 0
+        return "timeout"
+
+    def close(self):
+        try:
+            self.sock.close()
+        except Exception:
+            pass
+        try:
+            self.p.kill()
+        except Exception:
+            pass
+        try:
+            self.p.wait(10)
+        except Exception:
+            pass
+
+
+def server_reader_scenarios(rng, lbs, prop, quick):
+    """what the client puts on the link in ONE piece: (kind, list of messages)"""
+    out = []
+    if prop == "C09":
+        def pings(sizes):
+            return [(0, 0x4201, pattern(7, 11 * i, n)) for i, n in enumerate(sizes)]
+        # a window's tail: messages adding up to just over one read of the server (the last one is the round-trip request)
+        room = max(0, min(lbs, 60000) - 16)
+        out.append(("just_over_one_read", pings([room, 6, 6])))
+        # many small requests in one piece
+        out.append(("many_small", pings([rng.choice([0, 6, 7]) for _ in range(rng.choice([40, 70]))])))
+        # more than two reads' worth, not a multiple of any block size
+        tot, sizes = 2 * min(lbs, 30000) + 1017, []
+        while tot > 0:
+            n = min(tot, rng.choice([6, 100, 1000, 2048, 4089]))
+            sizes.append(n)
+            tot -= n + 8
+        out.append(("two_reads_and_a_bit", pings(sizes + [6])))
+        if lbs >= 100:
+            # one message larger than a read, then the request
+            out.append(("message_larger_than_a_read", pings([min(65535, lbs + 1000), 6])))
+        if not quick:
+            out.append(("random", pings([rng.choice([0, 1, 6, 300, 2048, 4096, 5000]) for _ in range(rng.randint(2, 30))])))
+    else:
+        # a connection's whole life in one piece: CONNECT, payload, end-of-stream
+        for total in ([lbs + 1017, 20000] if quick else [1, lbs + 1, lbs + 1017, 2 * lbs + 5, 20000, 70000]):
+            total = min(total, 150000)
+            out.append(("connect_payload_eof", total))
+    return out
+
+
+def server_reader_run(child, kind, spec, prop, listener=None):
+    """deliver one scenario to descriptor 0 of the real server in one segment and wait until it is answered or the server
+    has stopped.  Returns None if everything was answered, otherwise the detail of the failure."""
+    if prop == "C09":
+        msgs = spec
+        seg = b"".join(_frame(*m) for m in msgs)
+        want = [(0, 0x4202, d) for _, _, d in msgs]
+        child.send(seg)
+
+        def answers():
+            # (the server may ask for a round trip of its own, PING 'rttest', once the answers exceed ITS budget)
+            return [f for f in decode_frames(child.buf) if f[1] == 0x4202]
+
+        def take():
+            fr = decode_frames(child.buf)
+            child.buf = child.buf[sum(8 + len(d) for _, _, d in fr):]
+
+        def done():
+            return len(answers()) >= len(want)
+        how = child.settle(done)
+        got = answers()
+        take()
+        if got == want:
+            return None
+        det = {"bytes_in_the_segment": len(seg), "requests_sent": len(want), "answers_received": len(got),
+               "answers_are_a_prefix_of_the_expected_ones": got == want[:len(got)], "server_state": how,
+               "request_payload_lengths": [len(d) for _, _, d in msgs][:80]}
+        if how in ("idle", "timeout") and got == want[:len(got)]:
+            # show where the requests are: one more (unrelated) message makes the server look again
+            child.send(_frame(0, 0x4201, b"release"))
+            child.settle(lambda: len(answers()) >= len(want) - len(got) + 1, 10.0)
+            late = answers()
+            take()
+            det["answers_that_came_only_after_one_more_message_was_sent"] = max(0, len(late) - 1)
+        return det
+    # C01: payload
+    total = spec
+    host, port = listener.getsockname()[:2]
+    data = pattern(3, 0, total)
+    chan = 1 + (total % 50)
+    seg = _frame(chan, 0x4203, b"%d,%s,%d" % (int(real_socket.AF_INET), host.encode(), port))
+    for off in range(0, total, 2048):
+        seg += _frame(chan, 0x4206, data[off:off + 2048])
+    seg += _frame(chan, 0x4205)
+    child.send(seg)
+    got, eof, conn = b"", False, None
+    import select
+    import time
+    state, idle, t_end = "timeout", 0, time.time() + 45.0
+    while time.time() < t_end:
+        socks = [listener] if conn is None else [conn]
+        r, _, _ = select.select(socks, [], [], 0.05)
+        progressed = bool(r)
+        if r and conn is None:
+            conn, _ = listener.accept()
+            conn.setblocking(False)
+        elif r:
+            try:
+                d = conn.recv(1 << 16)
+                if d:
+                    got += d
+                else:
+                    eof = True
+            except (BlockingIOError, InterruptedError):
+                pass
+            except OSError:
+                eof = True
+        if eof or (len(got) >= total and not r):
+            if eof:
+                state = "done"
+                break
+        child.pump(0)
+        if child.p.poll() is not None:
+            state = "died"
+            break
+        if not progressed and child.unread_by_server() == 0 and child.waiting_for_input() is True:
+            idle += 1
+            if idle >= 6:
+                state = "idle"
+                break
+        else:
+            idle = 0
+    if conn is not None:
+        conn.close()
+    child.buf = b""
+    if got == data and eof:
+        return None
+    return {"bytes_in_the_segment": len(seg), "payload_bytes_sent": total, "payload_bytes_the_destination_received": len(got),
+            "received_is_a_prefix": data.startswith(got), "destination_saw_end_of_stream": eof,
+            "destination_was_connected": conn is not None, "server_state": state}
+
+
+def server_reader_check(ctx, prop, only=None):
+    """C01 / C09 at the SERVER's end of the ssh channel: the multiplexer of the real server.main reads descriptor 0
+    through whatever object server.main builds for it, and is only woken when select() reports descriptor 0 readable.
+    So every complete message that has been delivered to descriptor 0 must be acted on without any further input:
+    k round-trip requests give k answers (C09: "every such request is eventually answered"), a connection's payload
+    reaches its destination (C01: "every byte written before the writer closed is eventually delivered") — for every
+    --latency-buffer-size (the size of the server's reads), also ones that are not multiples of a block size, and for
+    segments larger than one read.  Real process, real descriptors; implementation only (the stream model's link
+    delivers whole frames straight into the multiplexer)."""
+    import random
+    quick = ctx.quick()
+    rng = random.Random(ctx.rng.randrange(1 << 30))
+    if only is not None:
+        sizes = [only["latency_buffer_size"]]
+    elif quick:
+        sizes = [1, 100, 1024, 3000, 4096, 5000, 10000, 32768, 40000] if prop == "C09" else [100, 1024, 5000, 32768]
+    else:
+        sizes = [1, 5, 100, 1000, 1024, 2048, 3000, 4095, 4096, 4097, 5000, 8192, 10000, 16384, 20000, 32768, 40000,
+                 65536, 100000, 1 << 20]
+    listener = None
+    if prop != "C09":
+        try:
+            listener = real_socket.socket(real_socket.AF_INET, real_socket.SOCK_STREAM)
+            listener.bind(("127.0.0.1", 0))
+            listener.listen(8)
+        except OSError:
+            ctx.count("server_reader_skipped_no_loopback")
+            return []
+    found = []
+    try:
+        for lbs in sizes:
+            child = ServerChild(lbs)
+            try:
+                if not child.start():
+                    ctx.count("server_reader_child_did_not_start")
+                    det = {"latency_buffer_size": lbs, "exit_status": child.p.poll(), "bytes_received": len(child.buf)}
+                    found.append(det)
+                    ctx.violation("the real server.main, started with descriptors 0 and 1 on a socket pair, did not send its "
+                                  "synchronisation string and first messages", {"server_reader": det})
+                    break
+                scen = server_reader_scenarios(rng, lbs, prop, quick)
+                if only is not None:
+                    scen = [sc_ for sc_ in scen if sc_[0] == only["scenario"]] or scen
+                    if only.get("messages") is not None:
+                        scen = [(only["scenario"], [(0, 0x4201, bytes.fromhex(h)) for h in only["messages"]])]
+                    elif only.get("payload_bytes") is not None:
+                        scen = [(only["scenario"], only["payload_bytes"])]
+                for kind, spec in scen:
+                    det = server_reader_run(child, kind, spec, prop, listener)
+                    ctx.case(("server-reader", prop, lbs, kind), nontrivial=True)
+                    ctx.count("server_reader_%s" % kind)
+                    if det is None:
+                        continue
+                    det = dict(det, latency_buffer_size=lbs, scenario=kind)
+                    if prop == "C09":
+                        if sum(len(d) for _, _, d in spec) <= 20000:
+                            det["messages"] = [d.hex() for _, _, d in spec]
+                        what = ("round-trip requests delivered to the server's descriptor 0 in one segment were not all answered "
+                                "although the server had taken every byte off the descriptor and gone back to sleep in select(): "
+                                "the object server.main reads the tunnel through holds them back (read-ahead), the asking end "
+                                "stays paused")
+                    else:
+                        det["payload_bytes"] = spec
+                        what = ("a connection's CONNECT, payload and end-of-stream delivered to the server's descriptor 0 in one "
+                                "segment did not all reach the destination although the server had taken every byte off the "
+                                "descriptor and gone back to sleep in select(): the object server.main reads the tunnel "
+                                "through holds them back (read-ahead)")
+                    if det["server_state"] == "died":
+                        what = ("the real server.main ended while acting on messages delivered to its descriptor 0 in one segment")
+                    found.append(det)
+                    ctx.violation(what, {"server_reader": det})
+                    break               # the child's stream position is no longer known: next buffer size, fresh child
+            finally:
+                child.close()
+            if len(found) >= 3:
+                break
+    finally:
+        if listener is not None:
+            listener.close()
+    return found
+
+
 def stream_replay(ctx, rp, prop):
+    sr = rp.get("replay", {}).get("server_reader")
+    if sr:
+        found = server_reader_check(ctx, prop, only=sr) if sr.get("scenario") else []
+        print("server reader:", found)
+        return bool(found)
     case = rp.get("replay", {}).get("case")
     if not case:
         print("nothing replayable")
